@@ -100,7 +100,7 @@ func cmdFn(args []string) int {
 	sem := make(chan struct{}, 16)
 	bad := 0
 	for _, ct := range cs.Order {
-		if ct.External || ct.Trusted || ct.Opaque || !strings.Contains(ct.Func, *name) {
+		if ct.External || ct.Trusted || ct.Opaque || !strings.Contains(ct.Func, *name) || ct.onlyInline() {
 			continue
 		}
 		t1 := time.Now()
